@@ -43,3 +43,32 @@ fn(L + "__setitem__", cls="AList", props=["C50"], types={"index": "int"}, consts
    # an integer index re-points the existing intermediary object through the setter: the collection itself is untouched
    ensures=["contents(self.col) == old(contents(self.col))", "self._g_set_calls == old(self._g_set_calls) + [pair(old(contents(self.col))[index], value)]"],
    modifies=["self._g_set_calls"])
+
+
+# ---- _AssociationDict: view(k) = getter(col[k]) for k in col
+D = A + "_AssociationDict."
+cls("ADict", fields={"col": "dict", "getter": "fn", "creator": "fn", "setter": "fn", "_g_set_calls": "seqv"},
+    methods={"_create": D + "_create@rt", "_get": D + "_get", "_set": D + "_set@ghost", "__getitem__": D + "__getitem__"})
+fn(D + "_create@rt", abstract=True, cls="ADict", params=["self", "key", "value"], returns="v", modifies=[],
+   ensures=["call(self.getter, result) is value", "result is not None"], notes="creator(key, value): round trip assumed as the class documents")
+fn(D + "_set@ghost", abstract=True, cls="ADict", params=["self", "object_", "key", "value"], returns="none", modifies=["self._g_set_calls"],
+   ensures=["self._g_set_calls == old(self._g_set_calls) + [pair(object_, value)]"])
+fn(D + "_get", cls="ADict", props=["C50"], ensures=["result is call(self.getter, object_)"], modifies=[])
+SAMEKEYS = "forall(lambda q: implies(q is not key, dhas(self.col, q) == old(dhas(self.col, q)) and implies(dhas(self.col, q), dget(self.col, q) is old(dget(self.col, q)))))"
+fn(D + "__getitem__", cls="ADict", props=["C50"], raises={"KeyError": "not dhas(self.col, key)"},
+   ensures=["result is call(self.getter, dget(self.col, key))"], modifies=[])
+fn(D + "__contains__", cls="ADict", props=["C50"], returns="bool", ensures=["result == dhas(self.col, key)"], modifies=[])
+fn(D + "__delitem__", cls="ADict", props=["C50"], returns="none", raises={"KeyError": "not dhas(self.col, key)"},
+   ensures=["not dhas(self.col, key)", SAMEKEYS], modifies=["contents(self.col)"])
+fn(D + "clear", cls="ADict", props=["C50"], returns="none", ensures=["len(keys(self.col)) == 0"], modifies=["contents(self.col)"])
+fn(D + "__setitem__", cls="ADict", props=["C50"], returns="none",
+   ensures=["dhas(self.col, key)", SAMEKEYS,
+            # a new key gets a new intermediary object carrying the value; an existing one is re-pointed through the setter
+            "implies(not old(dhas(self.col, key)), call(self.getter, dget(self.col, key)) is value and self._g_set_calls == old(self._g_set_calls))",
+            "implies(old(dhas(self.col, key)), dget(self.col, key) is old(dget(self.col, key)) and "
+            "self._g_set_calls == old(self._g_set_calls) + [pair(old(dget(self.col, key)), value)])"],
+   modifies=["contents(self.col)", "self._g_set_calls"])
+fn(D + "popitem", cls="ADict", props=["C50"], types={"item": "tupleval"}, raises={"KeyError": "len(keys(self.col)) == 0"},
+   ensures=["is_tuple(result, 2) and old(dhas(self.col, result[0])) and not dhas(self.col, result[0])",
+            "result[1] is call(self.getter, old(dget(self.col, result[0])))"],
+   modifies=["contents(self.col)"])
